@@ -210,7 +210,7 @@ _SCN_STUBS = ["cJSON: bounded model (model/cjson_model.c): one heap object per n
 _scn = dict(units=_PROTO_UNITS, model=["model/cjson_model.c", "model/alloc_stub.c"], include=["model/alloc_macros.h"],
             unit_defines={"src/peer.c": ["log_peer_err=real_log_peer_err", "log_peer_info=real_log_peer_info"]},
             unwind=6, unwindset={"find_closer_entry_route_table.0": 1, "find_closer_entry_route_table.1": 1,
-                                 "find_closer_entry_element_table.0": 1, "find_closer_entry_element_table.1": 1, "strlen.0": 74, "dupstr.0": 74, "ci_eq.0": 24, "strcmp.0": 24, "strncmp.0": 24, "strncpy.0": 74, "cpystr.0": 22},
+                                 "find_closer_entry_element_table.0": 1, "find_closer_entry_element_table.1": 1, "create_matcher.0": 8, "strlen.0": 74, "dupstr.0": 74, "ci_eq.0": 24, "strcmp.0": 24, "strncmp.0": 24, "strncpy.0": 74, "cpystr.0": 22},
             stubs=_SCN_STUBS, config={"CONFIG_ELEMENT_TABLE_ORDER": 2, "CONFIG_ROUTING_TABLE_ORDER": 2, "CONFIG_INITIAL_FETCH_TABLE_SIZE": 2},
             timeout={"quick": 900, "thorough": 3600})
 _scn_fetch = dict(_scn, harness="harness/scn_fetch.c",
@@ -235,3 +235,23 @@ for _uf, _nm in ((0, "subscribed"), (1, "unfetched")):
       functions=["parse_message", "add_fetch_to_peer", "add_fetch_to_states", "remove_fetch_from_peer", "remove_fetch_from_states", "change_state"],
       symbolic="state value", assumes=["set-up steps succeed"],
       bounds="skeleton: A add 'a'; B fetch; B fetch same id; %sA change; 2 peers, 1 element" % ("B unfetch; " if _uf else ""), **_scn_fetch)
+
+# ------------------------------------------------------------------------------------------------ C02 dispatcher scenarios
+_scn_rpc = dict(_scn, harness="harness/scn_rpc.c")
+for _m, _nm in ((0, "info"), (1, "unknown_method"), (2, "error_path")):
+    for _si, _sn in ((0, "number"), (1, "string")):
+        O(id="C02.id_echo_%s_%s" % (_nm, _sn), props=["C02", "C07"], entry="harness_id_echo", reach=["string_id"] if _si else ["numeric_id"],
+          defines=["RPC_METHOD=%d" % _m] + (["STRING_ID=1"] if _si else []),
+          functions=["parse_message", "parse_json_rpc", "handle_method", "send_response", "create_common_response", "create_error_response", "create_result_response", "handle_info"],
+          symbolic="request id: " + ("a 2-character string with arbitrary first character" if _si else "any finite double, with the int field the JSON number parser derives from it"),
+          assumes=["numeric id is finite and |id| < 1e300"], bounds="one request (%s)" % _nm, **_scn_rpc)
+for _sh, _nm in ((0, "notification"), (1, "failing_notification"), (2, "stray_result"), (3, "stray_error"), (4, "neither")):
+    O(id="C02.no_answer_" + _nm, props=["C02"], entry="harness_no_answer", defines=["SHAPE=%d" % _sh],
+      functions=["parse_message", "parse_json_rpc", "handle_routing_response", "send_response", "change_state"],
+      symbolic="state value / payload", assumes=["set-up add succeeds"], bounds="skeleton: A add 'a'; one message of the given shape", **_scn_rpc)
+O(id="C02.batch_order", props=["C02"], entry="harness_batch", functions=["parse_message", "parse_json_array", "parse_json_rpc"],
+  symbolic="state value", assumes=[], bounds="batch of 4: add, change, remove, change(fails)", **_scn_rpc)
+for _w, _nm in ((0, "add_bad_access"), (1, "fetch_bad_matcher")):
+    O(id="C02.response_ownership_" + _nm, props=["C02", "C07"], entry="harness_response_ownership", defines=["WHICH=%d" % _w],
+      functions=["init_element", "fill_access", "create_fetch", "add_matchers", "alloc_fetch", "create_error_response_from_request"],
+      symbolic="(none: concrete refusal path, accounting checked)", assumes=[], bounds="one refused request", **_scn_rpc)
